@@ -16,6 +16,9 @@ func readHdlr(b *box) (ht hdlrType, err error) {
 	if err != nil {
 		return hdlrUnknown, err
 	}
+	if len(buf) < 8 {
+		return hdlrUnknown, ErrBufLength
+	}
 	ht = hdlrFromBuf(buf[4:8])
 	if logLevelInfo() {
 		logInfoBox(b).Str("hdlr", ht.String()).Send()
